@@ -299,7 +299,11 @@ impl<Octs: Octets> OpenMessage<Octs> {
 
         while opt_param_len > 0 {
             let param = Parameter::parse(parser)?;
-            opt_param_len -= 2 + param.length() as usize;
+            opt_param_len = opt_param_len
+                .checked_sub(2 + param.length() as usize)
+                .ok_or(ParseError::form_error(
+                    "optional parameter exceeds opt_parm_len"
+                ))?;
         }
 
         let end = parser.pos();
